@@ -62,4 +62,33 @@ static void vf_did_return(void);
 #define YY_FATAL_ERROR(msg) vf_fatal(msg)
 #endif
 
+#if defined(VF_API_C99)
+/* c99 back end: %option noyyread noyypanic, the user supplies both with the skeleton's prototypes */
+struct yyguts_t;
+#ifndef VF_DEFAULT_INPUT
+static int yyread(char *buf, size_t max_size, struct yyguts_t *yyscanner);
+#endif
+static void yypanic(const char *msg, struct yyguts_t *yyscanner) __attribute__((noreturn));
+#endif
+
+#ifdef VF_DEFAULT_INPUT
+/* The scanner's own yyread() is kept; the libc calls it makes are answered by the
+ * harness (macro interposition: the generated file is compiled in this translation unit).
+ * VF_DEFAULT_INPUT = 1: stdio fread path, 2: interactive getc path (isatty true), 3: read(2) under -Cr */
+#include <unistd.h>
+static size_t vf_fread(void *p, size_t sz, size_t n, FILE *f);
+static int vf_getc(FILE *f);
+static int vf_ferror(FILE *f);
+static void vf_clearerr(FILE *f);
+static int vf_isatty(int fd);
+static long vf_sysread(int fd, void *buf, size_t n);
+#undef getc
+#define fread(p, sz, n, f) vf_fread((p), (sz), (n), (f))
+#define getc(f) vf_getc(f)
+#define ferror(f) vf_ferror(f)
+#define clearerr(f) vf_clearerr(f)
+#define isatty(fd) vf_isatty(fd)
+#define read(fd, b, n) vf_sysread((fd), (b), (n))
+#endif
+
 #endif
